@@ -195,6 +195,9 @@ func (c *Chain) guard(name string, f func()) (halt *Halt) {
 	return nil
 }
 
+// SetLogs redirects the stream logs (nil disables).
+func (c *Chain) SetLogs(req, resp io.Writer) { c.reqLog, c.respLog = req, resp }
+
 // Guard runs an arbitrary call into the application under the same panic / CPU accounting as ABCI calls.
 func (c *Chain) Guard(name string, f func()) *Halt { return c.guard(name, f) }
 
